@@ -46,23 +46,26 @@ def _cfg():
 @st.composite
 def _history(draw, tier):
     cfg = _cfg()
-    nvars = draw(st.integers(*cfg.nvars))
+    # one history in five is built around a one-to-many join abandoned in the middle of a group of partners
+    join_story = chance(draw, 1, 5)
+    nvars = draw(st.integers(2, 3)) if join_story else draw(st.integers(*cfg.nvars))
     recs = draw_dataset(draw, cfg)
     n = len(recs)
     ctx = Ctx(cfg, recs, nvars)
     dup = chance(draw, 1, 5)
     doms = []
     for v in range(nvars):
-        size = draw(st.integers(1, min(3, n)))
+        size = draw(st.integers(1, min(4 if nvars == 2 else 3, n)))
         d = list(draw(st.permutations(list(range(n))))[:size])
         if dup and v == 0:
             d.insert(draw(st.integers(0, len(d))), d[0])       # the same object listed twice
         doms.append(d)
     vars_ = [{"dom": v, "decl": draw(st.sampled_from(["let", "from"])), "type": "Ent"} for v in range(nvars)]
+    share_cmp = chance(draw, 1, 4)
     pool = []
     for qi in range(draw(st.integers(2, 4))):
-        cond = template_cond(draw, ctx)
-        if chance(draw, 1, 2):
+        cond = template_cond(draw, ctx, "filter_then_join" if join_story and qi == 0 else None)
+        if chance(draw, 1, 2) and not (join_story and qi == 0):
             flaky = ["fpred", "p_flaky", [["var", draw(st.integers(0, nvars - 1))], ["const", draw(st.sampled_from(ctx.P["ints"]))]]]
             conn = draw(st.sampled_from(["and", "and", "or"]))
             parts = [cond, flaky] if draw(st.booleans()) else [flaky, cond]
@@ -74,6 +77,16 @@ def _history(draw, tier):
                 cond = [cond[0], cond[1], [["sub", "entity", [v], cond[2][0]]] + cond[2][1:]]
             else:
                 cond = ["sub", "entity", [v], cond]
+        if share_cmp and pool and chance(draw, 2, 3):
+            # a comparison OBJECT of an earlier query is used again, in another connective (c = x.a >= 2;
+            # q1 = ...or_(c, d)...; q2 = ...and_(c, e)...): its result cache is filled by one and read by the other
+            earlier = [n for s_ in pool for n in A.walk(s_["cond"]) if n[0] in ("cmp", "in")]
+            if earlier:
+                reused = draw(st.sampled_from(earlier))
+                parts = [reused, leaf(draw, ctx, [draw(st.integers(0, nvars - 1))])]
+                if draw(st.booleans()):
+                    parts.reverse()
+                cond = [draw(st.sampled_from(["and", "or"])), draw(st.sampled_from(["nary", "binl"])), parts]
         k = draw(st.integers(1, nvars))
         order = list(draw(st.permutations(list(range(nvars))))[:k])
         sel = [["var", v] for v in order]
@@ -96,17 +109,23 @@ def _history(draw, tier):
             spec["share_with"] = j
         pool.append(spec)
     ops = []
+    if join_story:
+        ops += [["partial", 0, draw(st.integers(1, 3)), draw(st.sampled_from(["close", "drop"]))], ["full", 0]]
     for _ in range(draw(st.integers(2, 8))):
         qi = draw(st.integers(0, len(pool) - 1))
         kind = draw(st.sampled_from(["full", "full", "partial", "partial", "raising"]))
         if kind == "partial":
             ops.append(["partial", qi, draw(st.integers(0, 3)), draw(st.sampled_from(["close", "drop"]))])
+            if draw(st.booleans()):
+                ops.append(["full", qi])       # what an abandoned evaluation left behind is read back at once
         elif kind == "raising":
             ops.append(["raising", qi, draw(st.integers(1, 6))])
         else:
             ops.append(["full", qi])
     ops.append(["full", draw(st.integers(0, len(pool) - 1))])
-    return {"ents": recs, "doms": doms, "vars": vars_, "pool": pool, "ops": ops, "caching": draw(st.booleans()),
+    # (negation rewrites its operands in place, so comparison objects are only shared between negation-free queries)
+    share_cmp = share_cmp and not any(A.has_kind(s_["cond"], "not") for s_ in pool)
+    return {"share_comparisons": share_cmp, "ents": recs, "doms": doms, "vars": vars_, "pool": pool, "ops": ops, "caching": True if join_story else draw(st.booleans()),
             "dom_kind": "list"}
 
 
@@ -164,6 +183,8 @@ def check(case) -> Outcome:
     classes = ["caching_on" if case["caching"] else "caching_off", f"vars{len(case['vars'])}"]
     if any(s_.get("share_with") is not None for s_ in case["pool"]):
         classes.append("shared_condition_object")
+    if case.get("share_comparisons"):
+        classes.append("comparison_objects_shared_between_queries")
     if any(A.has_kind(s_["cond"], "sub") for s_ in case["pool"]):
         classes.append("nested_subquery")
     if has_dup:
@@ -173,7 +194,13 @@ def check(case) -> Outcome:
         V, conts = declare_vars(case, objs)
         conts_before = [list(map(id, c)) for c in conts]
         builts = []
+        if case.get("share_comparisons"):
+            from ..build import Vars
+            V = Vars(V)
+            V.cmemo = {}
         for spec in case["pool"]:
+            if case.get("share_comparisons"):
+                V.cused = set()
             shared = builts[spec["share_with"]].conds if spec.get("share_with") is not None else None
             builts.append(_build_sharing(V, spec, conts, shared))
         twins = {}
@@ -288,6 +315,7 @@ def check(case) -> Outcome:
 def render(case):
     return {"entities": [f"#{i}:{r['cls']}(a={r['a']},b={r['b']},s={r['s']!r})" for i, r in enumerate(case["ents"])],
             "doms": case["doms"], "caching": case["caching"],
+            "equal_comparisons_are_one_object_in_all_queries": bool(case.get("share_comparisons")),
             "pool": [f"q{i}: {s['quant']}({s['desc']}{[A.r_term(t) for t in s['sel']]}, {A.r_cond(s['cond'])})"
                      for i, s in enumerate(case["pool"])],
             "history": case["ops"]}
